@@ -361,6 +361,26 @@ def run(ctx):
                    "errors are relative to that text, while the error shows the original source" % (name_.split("::")[-1], ", ".join(bad_)),
                    c_.fn.where(c_.bb))
     ctx.floor("C14.F10 places that hand the template source to the parser / generator / debug info", n10, 7)
+    # F11: the token stream hands a pending tokenizer error out *once* (`current()` replaces it by "end of input").
+    # Whoever asks for the current token therefore returns that error; matching it away (`matches!(stream.current(),
+    # Ok(Some(..)))` in a guard, `if let Ok(..) = ..`) loses the real error and the parser fails later with
+    # "unexpected end of input" at the previous token (found on the unchanged tree, fix recorded in known_findings).
+    n11 = 0
+    CUR = "minijinja::compiler::parser::TokenStream::current"
+    for c_ in prog.callers().get(CUR, []):
+        if c_.dest is None or "p" in c_.dest:
+            continue
+        n11 += 1
+        ds_ = errflow.disposition(c_.fn, c_)
+        bad_ = [d for d in ds_ if d[0] in ("matched-not-propagated", "swallowed")]
+        if bad_:
+            k_ = sum(1 for x in prog.callers().get(CUR, []) if x.fn is c_.fn and x.bb <= c_.bb)
+            ctx.ob("C14.F11.pending-tokenizer-error-is-handed-on", "%s|current#%d" % (c_.fn.path.split("::")[-1], k_), False,
+                   "%s asks the token stream for the current token and does not return its error (%s): the stream hands a "
+                   "pending tokenizer error out only once, so the real error (and its line) is lost and the parser reports "
+                   "`unexpected end of input` at the previous token" % (c_.fn.path.split("::")[-1], bad_[0][0]), c_.fn.where(c_.bb))
+    ctx.ob("C14.F11.pending-tokenizer-error-is-handed-on", "all-parser-functions", True, "calls checked: %d" % n11, "")
+    ctx.floor("C14.F11 calls of TokenStream::current", n11, 60)
     ctx.sample({"Err exits": len(errs), "process_err calls": len(perr)})
 
 
